@@ -251,7 +251,7 @@ impl LineSymbolMap {
         // Check not overlapping:
         let not_overlapping = bl.windows(2).all(|win| {
             let [(ls, lb), (rs, _)] = win else { unreachable!() };
-            ls + lb.len() <= *rs
+            ls.checked_add(lb.len()).is_some_and(|le| le <= *rs)
         });
 
         match not_overlapping {
